@@ -129,14 +129,14 @@ Definition cA : ops TA := cplx oA.
 Global Instance reA1 : RealElt qcops (qq 2 1). Proof. reflexivity. Qed.
 Global Instance reA2 : RealElt oA1 (kofZ oA1 3). Proof. reflexivity. Qed.
 Global Instance reA3 : RealElt oA2 (kofZ oA2 7). Proof. reflexivity. Qed.
-Global Instance oA1_star : StarRing oA1. Proof. unfold oA1. typeclasses eauto. Qed.
-Global Instance oA1_unit : UnitInv oA1. Proof. unfold oA1. typeclasses eauto. Qed.
-Global Instance oA2_star : StarRing oA2. Proof. unfold oA2. typeclasses eauto. Qed.
-Global Instance oA2_unit : UnitInv oA2. Proof. unfold oA2. typeclasses eauto. Qed.
-Global Instance oA_star : StarRing oA. Proof. unfold oA. typeclasses eauto. Qed.
-Global Instance oA_unit : UnitInv oA. Proof. unfold oA. typeclasses eauto. Qed.
-Global Instance cA_star : StarRing cA. Proof. unfold cA. typeclasses eauto. Qed.
-Global Instance cA_unit : UnitInv cA. Proof. unfold cA. typeclasses eauto. Qed.
+Global Instance oA1_star : StarRing oA1. Proof. exact (@qext_star _ qcops (qq 2 1) qc_star reA1). Qed.
+Global Instance oA1_unit : UnitInv oA1. Proof. exact (@qext_unit _ qcops (qq 2 1) qc_star qc_unit). Qed.
+Global Instance oA2_star : StarRing oA2. Proof. exact (@qext_star _ oA1 (kofZ oA1 3) oA1_star reA2). Qed.
+Global Instance oA2_unit : UnitInv oA2. Proof. exact (@qext_unit _ oA1 (kofZ oA1 3) oA1_star oA1_unit). Qed.
+Global Instance oA_star : StarRing oA. Proof. exact (@qext_star _ oA2 (kofZ oA2 7) oA2_star reA3). Qed.
+Global Instance oA_unit : UnitInv oA. Proof. exact (@qext_unit _ oA2 (kofZ oA2 7) oA2_star oA2_unit). Qed.
+Global Instance cA_star : StarRing cA. Proof. exact (@cplx_star _ oA oA_star). Qed.
+Global Instance cA_unit : UnitInv cA. Proof. exact (@cplx_unit _ oA oA_star oA_unit). Qed.
 
 Definition a_r2 : KA := qin oA2 (qin oA1 (qgen qcops)).     (* sqrt 2 *)
 Definition a_r3 : KA := qin oA2 (qgen oA1).                 (* sqrt 3 *)
@@ -170,14 +170,14 @@ Definition cB : ops TB := cplx oB.
 
 Global Instance reB2 : RealElt oB1 (qgen qcops). Proof. reflexivity. Qed.
 Global Instance reB3 : RealElt oB2 b_gam2. Proof. reflexivity. Qed.
-Global Instance oB1_star : StarRing oB1. Proof. unfold oB1. typeclasses eauto. Qed.
-Global Instance oB1_unit : UnitInv oB1. Proof. unfold oB1. typeclasses eauto. Qed.
-Global Instance oB2_star : StarRing oB2. Proof. unfold oB2. typeclasses eauto. Qed.
-Global Instance oB2_unit : UnitInv oB2. Proof. unfold oB2. typeclasses eauto. Qed.
-Global Instance oB_star : StarRing oB. Proof. unfold oB. typeclasses eauto. Qed.
-Global Instance oB_unit : UnitInv oB. Proof. unfold oB. typeclasses eauto. Qed.
-Global Instance cB_star : StarRing cB. Proof. unfold cB. typeclasses eauto. Qed.
-Global Instance cB_unit : UnitInv cB. Proof. unfold cB. typeclasses eauto. Qed.
+Global Instance oB1_star : StarRing oB1. Proof. exact (@qext_star _ qcops (qq 2 1) qc_star reA1). Qed.
+Global Instance oB1_unit : UnitInv oB1. Proof. exact (@qext_unit _ qcops (qq 2 1) qc_star qc_unit). Qed.
+Global Instance oB2_star : StarRing oB2. Proof. exact (@qext_star _ oB1 (qgen qcops) oB1_star reB2). Qed.
+Global Instance oB2_unit : UnitInv oB2. Proof. exact (@qext_unit _ oB1 (qgen qcops) oB1_star oB1_unit). Qed.
+Global Instance oB_star : StarRing oB. Proof. exact (@qext_star _ oB2 b_gam2 oB2_star reB3). Qed.
+Global Instance oB_unit : UnitInv oB. Proof. exact (@qext_unit _ oB2 b_gam2 oB2_star oB2_unit). Qed.
+Global Instance cB_star : StarRing cB. Proof. exact (@cplx_star _ oB oB_star). Qed.
+Global Instance cB_unit : UnitInv cB. Proof. exact (@cplx_unit _ oB oB_star oB_unit). Qed.
 
 Definition b_r2 : KB := qin oB2 (qin oB1 (qgen qcops)).     (* sqrt 2 *)
 Definition b_q : KB := qin oB2 (qgen oB1).                  (* 2^(1/4) *)
